@@ -323,14 +323,45 @@ def _worker_init(pid: str) -> None:
     gc.freeze()
 
 
+class CaseHang(BaseException):
+    """Raised (from a SIGALRM handler) inside a case that does not finish in real time."""
+
+
+CASE_LIMIT = float(os.environ.get("VERIF_CASE_TIMEOUT", "30"))
+_HANGS = [0]
+
+
 def _worker_run(case: dict[str, Any]) -> tuple[dict[str, Any], Any, str | None]:
     assert _PROP is not None
+    import signal
+    import threading
+
+    watchdog = threading.current_thread() is threading.main_thread() and hasattr(signal, "setitimer")
+
+    def on_alarm(signum: int, frame: Any) -> None:
+        raise CaseHang()
+
+    if watchdog:
+        old = signal.signal(signal.SIGALRM, on_alarm)
+        # (repeating: code that catches BaseException - a teardown loop, say - may swallow the first ones)
+        # (after two hangs in this worker process the rest get 3 s each: the finding is made, the run should end)
+        signal.setitimer(signal.ITIMER_REAL, CASE_LIMIT if _HANGS[0] < 2 else 3.0, 0.05)
     try:
         return case, _PROP.run_impl(case), None
+    except CaseHang:
+        _HANGS[0] += 1
+        return case, None, "HANG"
     except BaseException as exc:  # harness failure, reported as such
         import traceback
 
+        if isinstance(exc, BaseExceptionGroup) and exc.subgroup(CaseHang) is not None:
+            _HANGS[0] += 1
+            return case, None, "HANG"
         return case, None, "".join(traceback.format_exception(exc))[-3000:]
+    finally:
+        if watchdog:
+            signal.setitimer(signal.ITIMER_REAL, 0)
+            signal.signal(signal.SIGALRM, old)
 
 
 def evaluate(prop: Prop, cases: list[dict[str, Any]], workers: int) -> list[dict[str, Any]]:
@@ -355,6 +386,13 @@ def evaluate(prop: Prop, cases: list[dict[str, Any]], workers: int) -> list[dict
     req_index = []
     crashed = 0
     for i, (case, impl, err) in enumerate(impl_results):
+        if err == "HANG":
+            # every operation of every property terminates: a case that does not is a finding with that case as the
+            # input (virtual time makes every legitimate wait instantaneous; the limit is real time)
+            records.append({"case": case, "impl": {"hang": True}, "model": None, "disagree": None, "crashed": True,
+                            "monitor": [f"[{prop.id}] the implementation did not finish this case within {CASE_LIMIT:g} s of "
+                                        f"real time: something waits for ever or loops"]})
+            continue
         if err is not None:
             # the harness could not drive the implementation through this case: on the unchanged tree
             # this never happens, so it is reported as a broken correspondence (the model no longer
@@ -405,6 +443,8 @@ def shrink_case(prop: Prop, rec: dict[str, Any], budget: int = 400) -> dict[str,
     def kind(r: dict[str, Any]) -> str:
         return "monitor" if r["monitor"] else ("disagree" if r["disagree"] else "")
 
+    if isinstance(rec.get("impl"), dict) and rec["impl"].get("hang"):
+        return rec          # (every candidate that still hangs costs the full time limit: reported as found)
     want = kind(rec)
     best = rec
     improved = True
